@@ -93,7 +93,7 @@ func (r *Run) ExploreSpecs(specs []Spec) {
 		kb, _ := json.Marshal(specs[i])
 		key := "space " + string(kb)
 		if r.isDone(key) {
-			results[i] = res{Stats{Exhaustive: true}, nil, nil, true}
+			results[i] = res{Stats{Exhaustive: true, CapHit: "(identical space already explored to completion in pass 1)"}, nil, nil, true}
 			continue
 		}
 		sem <- struct{}{}
